@@ -2,16 +2,16 @@
 
 AREAS = {
     "C16": {
-        "area": "c16", "id": 16, "coq": ["Base", "Cobs", "Properties/C16.v", "MiniGo", "Anchors/Generated.v", "Anchors/TieCobs.v"],
+        "area": "c16", "id": 16, "coq": ["Base", "Cobs", "Properties/C16.v", "MiniGo", "Anchors/Generated.v", "Anchors/TieCobs.v", "Anchors/TieCobsDec.v"],
         "rule": "seeded generator: 1-5 frames (lengths skewed to 1,2,3,253..256,507..510; bytes skewed to 00/01/ff; a zero "
                 "right after a full 254-byte block), random segmentation into device reads (1 byte, whole, 1-3, 1-40, at "
                 "delimiters, random; occasional empty reads), one optional damage event (corrupt / lose / insert), buffer "
                 "limits at or just above the largest encoded frame; a case is non-trivial when it has more than one device "
                 "read or more than one frame; distinct by SHA-1 of (limits, frames, chunks)",
         "trusted": ["model of CobsWrapper.Read/Write and cobsDecodeInplace: coq/theories/Cobs/Model.v (hand-written, tied by this run's correspondence)",
-                    "translator harness/cmd/anchors (go/parser + go/types, no imports followed): prints client.cobsEncode from client/cobs-wrapper.go as a syntax tree of MiniGo/Slice.v into coq/theories/Anchors/Generated.v before every build; C16_encoder_from_source is re-checked against that text; MiniGo/Slice.v is the stated semantics of the fragment (byte arithmetic modulo 256, append without capacities, panics as None)"],
+                    "translator harness/cmd/anchors (go/parser + go/types, no imports followed): prints client.cobsEncode and client.cobsDecodeInplace from client/cobs-wrapper.go as syntax trees of MiniGo/Slice.v into coq/theories/Anchors/Generated.v before every build (a `continue` that ends an if-body is printed as if / else, the loop `for i = 0; i < len(s); i++` as TForLen); C16_encoder_from_source, C16_decoder_from_source and C16_printed_codec_roundtrip are re-checked against that text; MiniGo/Slice.v is the stated semantics of the fragment (byte arithmetic modulo 256, append without capacities, panics as None, a nil slice not told from an empty one: the decoder statement is for non-empty buffers)"],
         "level_text": "proof: C16_cobs_roundtrip, C16_chunking_invariant (every frame list, every segmentation, no size bound) and "
-                      "C16_resync_partial are Coq theorems about the executable model of CobsWrapper, and C16_encoder_from_source shows that cobsEncode as printed from the Go source on this run computes the model's encoder for every frame; the model is run against the "
+                      "C16_resync_partial are Coq theorems about the executable model of CobsWrapper, and C16_encoder_from_source / C16_decoder_from_source show that cobsEncode and cobsDecodeInplace as printed from the Go source on this run compute the model's encoder for every frame and the model's decoder for every non-empty buffer (C16_printed_codec_roundtrip: the printed decoder undoes the printed encoder); the model is run against the "
                       "real CobsWrapper on >1000 generated streams per run (clean, damaged, oversize) and must agree on every result",
         "level_note": "trusted: Coq kernel, extraction, OCaml driver, the Go harness and its scripted device; modelled not verified: "
                       "bytes.Buffer, the io.ReadWriteCloser contract; resync is proved for damage whose zero-free runs fit the buffer limits",
